@@ -19,6 +19,8 @@ def run(chk):
     r16b(chk, 'R06.c')
     r18d(chk, 'R06.d')
     r18a(chk, 'R06.e')
+    r06f(chk)
+    r06g(chk)
 
 
 def pref_sets(repo):
@@ -96,3 +98,115 @@ def r06b(chk, rid='R06.b'):
             chk.ob(rid, SER, q, f'`if {text(node.test)[:70]}` only affects white space', not bad, f'under a layout preference: {bad} - tokens of the output would depend on layout settings')
     if n_cond < 4:
         raise AnalysisError(f'only {n_cond} layout conditions found (>= 4 confirmed by hand)')
+
+
+def r06f(chk, rid='R06.f'):
+    chk.rule(rid, 'the preferences that select declarations, decided by evaluation: CSSSerializer.do_css_CSSStyleDeclaration is evaluated on its syntax tree over a model block (comment, an overridden and an effective declaration of one name, another declaration, a nested unknown at-rule, a declaration that serialises to nothing) for every combination of keepAllProperties, keepComments, keepUnknownAtRules, omitLastSemicolon and the omit argument: exactly the effective declarations (all of them under keepAllProperties) are written, in order, separated by semicolons; comments exactly under keepComments; the preferences do not interfere with each other')
+    import itertools
+
+    from sa.absint import Evaluator, Raised, Record
+
+    m = chk.repo.mod(SER)
+    fn = m.get('CSSSerializer.do_css_CSSStyleDeclaration')
+
+    class PropM(Record):
+        pass
+
+    class CommM(Record):
+        pass
+
+    class UnkM(Record):
+        pass
+
+    a1, b, a2, empty = PropM(cssText='a:1', name='a'), PropM(cssText='b:2', name='b'), PropM(cssText='a:3', name='a'), PropM(cssText='', name='e')
+    items = [Record(value=CommM(cssText='/*c*/')), Record(value=a1), Record(value=b), Record(value=UnkM(cssText='@x;')), Record(value=a2), Record(value=empty)]
+    style = Record(seq=items, getProperties=lambda name=None, all=False: [a1, b, a2, empty] if all else [b, a2, empty])
+    n = 0
+    bad = []
+    for keepall, keepc, keepu, omitlast, omit in itertools.product((True, False), repeat=5):
+        prefs = Record(keepAllProperties=keepall, keepComments=keepc, keepUnknownAtRules=keepu, omitLastSemicolon=omitlast, lineSeparator='\n')
+        intr = {'cssutils': Record(css=Record(Property=PropM, CSSComment=CommM, CSSUnknownRule=UnkM))}
+        got = Evaluator(fn, intrinsics=intr, module=m, cls='CSSSerializer').run(self=Record(prefs=prefs), style=style, separator=None, omit=omit)
+        n += 1
+        label = f'keepAllProperties={keepall} keepComments={keepc} keepUnknownAtRules={keepu} omitLastSemicolon={omitlast} omit={omit}'
+        if isinstance(got, Raised) or not isinstance(got, str):
+            bad.append(f'{label}: {got!r}')
+            continue
+        lines = [x for x in got.split('\n') if x]
+        props = [x.rstrip(';') for x in lines if x[:2] in ('a:', 'b:')]
+        want = ['a:1', 'b:2', 'a:3'] if keepall else ['b:2', 'a:3']
+        probs = []
+        if props != want:
+            probs.append(f'declarations {props}, prescribed {want}')
+        if ('/*c*/' in lines) != keepc:
+            probs.append('comment ' + ('dropped' if keepc else 'kept'))
+        unterminated = [x for x in lines[:-1] if x[:2] in ('a:', 'b:') and not x.endswith(';')]
+        if unterminated:
+            probs.append(f'no semicolon after {unterminated}')
+        if probs:
+            bad.append(f'{label}: ' + '; '.join(probs))
+    chk.extra['declaration_preference_cases'] = n
+    chk.ob(rid, SER, 'CSSSerializer.do_css_CSSStyleDeclaration', f'all {n} preference combinations select and separate the declarations as documented', not bad, f'{len(bad)} combinations differ, e.g. ' + ' | '.join(bad[:2]))
+
+
+def out_model(chk, ser):
+    """`Out(ser)` whose append/value are the source's own Out.append / Out.value, evaluated."""
+    from sa.absint import Evaluator, Raised, Record
+
+    m = chk.repo.mod(SER)
+    me = Record(ser=ser, out=[])
+    intr = {'helper': Record(string=lambda v: '"' + v + '"', uri=lambda v: 'url(' + v + ')')}
+
+    def call(name, *a, **k):
+        fn = m.get(f'Out.{name}')
+        params = [x.arg for x in fn.args.args][1:]
+        kw_ = dict(zip(params, a))
+        kw_.update(k)
+        res = Evaluator(fn, intrinsics=intr, module=m, cls='Out').run(self=me, **kw_)
+        if isinstance(res, Raised):
+            raise AnalysisError(f'Out.{name}: {res!r}')
+        return res
+
+    me.append = lambda *a, **k: call('append', *a, **k)
+    me.value = lambda *a, **k: call('value', *a, **k)
+    return me
+
+
+def r06g(chk, rid='R06.g'):
+    chk.rule(rid, 'spacer preferences change white space only where it carries no meaning, decided by evaluation: CSSSerializer.do_css_Selector and the Out class it writes through (append, value, _remove_last_if_S - all evaluated from the source) are run for selectors with descendant, child and sibling combinators in front of type, class and attribute selectors, under every combination of an empty or one-space spacer and selectorCombinatorSpacer: the descendant combinator is always written as white space, the other combinators are enclosed in selectorCombinatorSpacer, nothing else changes')
+    import itertools
+
+    from sa.absint import Evaluator, Raised, Record
+
+    m = chk.repo.mod(SER)
+    fn = m.get('CSSSerializer.do_css_Selector')
+
+    def it(t, v):
+        return Record(type=t, value=v)
+
+    sels = {
+        'a [x]': [it('type-selector', (None, 'a')), it('descendant', ' '), it('attribute-start', '['), it('attribute-selector', (None, 'x')), it('attribute-end', ']')],
+        'a b': [it('type-selector', (None, 'a')), it('descendant', ' '), it('type-selector', (None, 'b'))],
+        'a .c': [it('type-selector', (None, 'a')), it('descendant', ' '), it('class', '.c')],
+        'a>b': [it('type-selector', (None, 'a')), it('child', '>'), it('type-selector', (None, 'b'))],
+        'a+b [y]': [it('type-selector', (None, 'a')), it('adjacent-sibling', '+'), it('type-selector', (None, 'b')), it('descendant', ' '), it('attribute-start', '['), it('attribute-selector', (None, 'y')), it('attribute-end', ']')],
+        'a[x] [y]': [it('type-selector', (None, 'a')), it('attribute-start', '['), it('attribute-selector', (None, 'x')), it('attribute-end', ']'), it('descendant', ' '), it('attribute-start', '['), it('attribute-selector', (None, 'y')), it('attribute-end', ']')],
+    }
+    n = 0
+    bad = []
+    for (label, seq), spacer, scs in itertools.product(sels.items(), ('', ' '), ('', ' ')):
+        prefs = Record(spacer=spacer, selectorCombinatorSpacer=scs, keepComments=True, indentClosingBrace=False, listItemSpacer=' ', propertyNameSpacer=' ', paranthesisSpacer=' ', lineSeparator='\n')
+        ser = Record(prefs=prefs, _level=0)
+        ns = Record(get=lambda k, d=None: None, prefixForNamespaceURI=lambda u: 'p')
+        selector = Record(wellformed=True, seq=seq, _namespaces=ns)
+        intr = {'Out': lambda s: out_model(chk, s), 'cssutils': Record(_ANYNS='ANY')}
+        got = Evaluator(fn, intrinsics=intr, module=m, cls='CSSSerializer').run(self=ser, selector=selector)
+        n += 1
+        want = ''
+        for x in seq:
+            v = x.value[1] if isinstance(x.value, tuple) else x.value
+            want += ' ' if x.type == 'descendant' else (scs + v + scs if v in '+>~' else v)
+        if got != want:
+            bad.append(f'{label!r} with spacer={spacer!r}, selectorCombinatorSpacer={scs!r} is written {got!r}, prescribed {want!r}')
+    chk.extra['selector_spacing_cases'] = n
+    chk.ob(rid, SER, 'Out.append', f'all {n} selector / spacer combinations keep the descendant combinator', not bad, f'{len(bad)} differ, e.g. ' + ' | '.join(bad[:2]) + ' - without the blank the selector means something else')
